@@ -105,6 +105,27 @@ class ConstSchema:
         self.value = value
 
 
+class ArrSchema:
+    """element that is a 1-leading-axis array"""
+
+    def __init__(self, sort):
+        self.sort = sort
+
+
+class DictSchema:
+    """element that is a dict with concrete keys"""
+
+    def __init__(self, fields):
+        self.fields = dict(fields)
+
+
+class SeqSchema:
+    """element that is itself a sequence of symbolic length (arrays of arrays + its own lo/hi)"""
+
+    def __init__(self, inner):
+        self.inner = inner
+
+
 def schema_leaves(schema, path=()):
     if isinstance(schema, z3.SortRef):
         yield path, schema
@@ -116,6 +137,17 @@ def schema_leaves(schema, path=()):
             yield from schema_leaves(s, path + (k,))
     elif isinstance(schema, ConstSchema):
         return
+    elif isinstance(schema, ArrSchema):
+        yield path + ("@a",), z3.ArraySort(INT, schema.sort)
+        yield path + ("@n",), INT
+    elif isinstance(schema, DictSchema):
+        for k, s in schema.fields.items():
+            yield from schema_leaves(s, path + (k,))
+    elif isinstance(schema, SeqSchema):
+        for p, srt in schema_leaves(schema.inner):
+            yield path + ("@arr",) + p, z3.ArraySort(INT, srt)
+        yield path + ("@lo",), INT
+        yield path + ("@hi",), INT
     else:
         raise Unsupported(f"bad schema {schema!r}")
 
@@ -181,11 +213,27 @@ def _build(schema, sel, path):
         return Rec(schema.cls, {k: _build(s, sel, path + (k,)) for k, s in schema.fields.items()}, module=schema.module, frozen=True)
     if isinstance(schema, ConstSchema):
         return schema.value
+    if isinstance(schema, ArrSchema):
+        return Arr(sel(path + ("@a",)), sel(path + ("@n",)))
+    if isinstance(schema, DictSchema):
+        return {k: _build(s, sel, path + (k,)) for k, s in schema.fields.items()}
+    if isinstance(schema, SeqSchema):
+        arrs = {p: sel(path + ("@arr",) + p) for p, _ in schema_leaves(schema.inner)}
+        return Seq(schema.inner, arrs, sel(path + ("@lo",)), sel(path + ("@hi",)), kind="list")
     raise Unsupported("schema")
 
 
 def _get(value, path):
-    for p in path:
+    for i, p in enumerate(path):
+        if isinstance(value, Arr):
+            return value.a if p == "@a" else value.n
+        if isinstance(value, Seq):
+            if p == "@lo":
+                return value.lo
+            if p == "@hi":
+                return value.hi
+            if p == "@arr":
+                return value.arrs[tuple(path[i + 1:])]
         if isinstance(value, Rec):
             value = value.f[p]
         else:
@@ -202,6 +250,17 @@ def _check_consts(schema, value):
             raise Unsupported(f"sequence element {value!r} does not match tuple schema")
         for s, v in zip(schema, value):
             _check_consts(s, v)
+    elif isinstance(schema, ArrSchema):
+        if not isinstance(value, Arr):
+            raise Unsupported(f"sequence element {value!r} is not an array")
+    elif isinstance(schema, DictSchema):
+        if not isinstance(value, dict) or set(value) != set(schema.fields):
+            raise Unsupported(f"sequence element {value!r} does not match dict schema")
+        for k, s in schema.fields.items():
+            _check_consts(s, value[k])
+    elif isinstance(schema, SeqSchema):
+        if not isinstance(value, Seq):
+            raise Unsupported(f"sequence element {value!r} is not a symbolic sequence")
     elif isinstance(schema, RecSchema):
         if not isinstance(value, Rec):
             raise Unsupported("sequence element is not a record")
